@@ -213,7 +213,14 @@ async def _real_listener_scenario(seed: int) -> list[dict[str, Any]]:
     import easynetwork.lowlevel.api_async.servers.datagram as dg
     from easynetwork.lowlevel.api_async.backend._asyncio.backend import AsyncIOBackend
     from easynetwork.protocol import DatagramProtocol
-    from easynetwork.serializers.json import JSONSerializer
+    from easynetwork.serializers.abc import AbstractPacketSerializer
+
+    class Raw(AbstractPacketSerializer[bytes, bytes]):
+        def serialize(self, packet: bytes) -> bytes:
+            return packet
+
+        def deserialize(self, data: bytes) -> bytes:
+            return bytes(data)
 
     rng = random.Random(seed)
     backend = AsyncIOBackend()
@@ -233,6 +240,7 @@ async def _real_listener_scenario(seed: int) -> list[dict[str, Any]]:
     after = {a: rng.randint(0, 3) for a in addrs}
     logs: dict[Any, list[dict[str, Any]]] = {a: [] for a in addrs}
     sent = {a: 0 for a in addrs}
+    empties: dict[Any, list[int]] = {a: [] for a in addrs}  # ids sent as zero-length datagrams, not delivered yet
     finished = [False]
 
     def log(a: Any, evname: str, id_: int = 0) -> None:
@@ -244,7 +252,11 @@ async def _real_listener_scenario(seed: int) -> list[dict[str, Any]]:
         log(a, "gen_start")
         try:
             req = yield None
-            log(a, "gen_got", int(req))
+            if req == b"":
+                id_ = empties[a].pop(0) if empties.get(a) else -1  # a zero-length datagram is a datagram like any other
+            else:
+                id_ = int(req)
+            log(a, "gen_got", id_)
             await asyncio.sleep(0)
         finally:
             log(a, "gen_end")
@@ -253,9 +265,13 @@ async def _real_listener_scenario(seed: int) -> list[dict[str, Any]]:
         a = addrs[i]
         sent[a] += 1
         log(a, "arrive", sent[a])
-        socks[i].sendto(str(sent[a]).encode(), server_addr)
+        if rng.random() < 0.25:
+            empties[a].append(sent[a])
+            socks[i].sendto(b"", server_addr)
+        else:
+            socks[i].sendto(str(sent[a]).encode(), server_addr)
 
-    server = dg.AsyncDatagramServer(listener, DatagramProtocol(JSONSerializer()))
+    server = dg.AsyncDatagramServer(listener, DatagramProtocol(Raw()))
     order = [i for i, a in enumerate(addrs) for _ in range(before[a])]
     rng.shuffle(order)
     for i in order:
